@@ -197,7 +197,7 @@ def coq_closure(vfile):
         todo.extend(deps.get(v, []))
     return sorted(seen)
 
-def proof_stats(prop_vfile):
+def proof_stats(prop_vfile, failed_files=None):
     """Run the property file through coqc (always, so that Print Assumptions output is from
     this run) after its dependencies were built.  Returns dict."""
     closure = coq_closure(prop_vfile)
@@ -209,9 +209,8 @@ def proof_stats(prop_vfile):
             n = 0
         per_file[v] = n
         statements += n
-    built = {v: os.path.exists(os.path.join(COQ, v + 'o')) and
-                os.path.getmtime(os.path.join(COQ, v + 'o')) >= os.path.getmtime(os.path.join(COQ, v))
-             for v in closure}
+    # a file counts as checked when its .vo exists and `make` (run just before, under the lock) did not report it
+    built = {v: os.path.exists(os.path.join(COQ, v + 'o')) and v not in (failed_files or ()) for v in closure}
     t0 = time.time()
     rc, out = sh(['coqc', '-Q', '.', 'Ygm', '-w', '-notation-overridden', prop_vfile], cwd=COQ, timeout=900)
     theorems = STMT.findall(open(os.path.join(COQ, prop_vfile)).read())
@@ -220,7 +219,7 @@ def proof_stats(prop_vfile):
     axioms = []
     for m in re.finditer(r'Axioms:\n((?:.+\n?)+?)(?=\n\S|\Z)', out):
         axioms.append(m.group(1).strip())
-    discharged = sum(n for v, n in per_file.items() if built.get(v)) if rc == 0 else \
+    discharged = sum(n for v, n in per_file.items() if built.get(v)) if (rc == 0 and closed == n_print) else \
                  sum(n for v, n in per_file.items() if built.get(v) and v != prop_vfile)
     return {'ok': rc == 0 and closed == n_print and all(built.values()), 'rc': rc, 'closure': closure,
             'obligations': statements, 'discharged': discharged,
@@ -361,7 +360,7 @@ def run_check(pid, tier, seed, prop, gen_needed, tie, search=None, trusted=(), a
     bad_src = audit_sources()
     gen = gen_coq()
     ok, log, fails = coq_make([prop + 'o'])
-    stats = proof_stats(prop)
+    stats = proof_stats(prop, failed_files={f for f, _, _, _ in fails})
     gen_bad = {k: v for k, v in gen.items() if (k in gen_needed or k == 'translator') and not str(v).startswith('ok')}
     proofs_ok = ok and stats['ok'] and not bad_src and not gen_bad
     t = tie(res) or {}
